@@ -915,7 +915,7 @@ class Folder:
                 raise Trap("unwrap/expect on %s at %s" % (v["__variant__"], span_str(e["span"])))
             return NotImplemented
         if last in ("find", "position", "any", "all", "map", "filter", "rev", "len", "count", "skip", "take", "last", "next_back",
-                    "contains", "first", "nth", "enumerate", "is_empty", "get", "find_map", "step_by", "zip"):
+                    "contains", "first", "nth", "enumerate", "is_empty", "get", "find_map", "step_by", "zip", "chain", "collect", "sum"):
             v = self.fold(a[0])
             seq = self._iterable(v)
             if seq is None:
@@ -924,6 +924,10 @@ class Folder:
                 return len(seq)
             if last == "is_empty" and len(a) == 1:
                 return not seq
+            if last == "collect" and len(a) == 1:
+                return [_loaded(x) for x in seq]
+            if last == "sum" and len(a) == 1 and all(isinstance(_loaded(x), int) for x in seq):
+                return sum(_loaded(x) for x in seq)
             if last == "rev" and len(a) == 1:
                 return list(reversed(seq))
             if last == "enumerate" and len(a) == 1:
@@ -941,6 +945,10 @@ class Folder:
                 if arg == 0:
                     raise Trap("step_by(0) at " + span_str(e["span"]))
                 return seq[::arg]
+            if last == "chain":
+                other = self._iterable(arg)
+                if other is not None:
+                    return list(seq) + list(other)
             if last == "zip":
                 other = self._iterable(arg)
                 if other is not None:
